@@ -12,28 +12,32 @@ MANIFEST = {
                  "segments, malformed box sequences and mutated moof bytes) + round-trip search on the implementation",
     "level_text": "Theorems (coq/c05/C05Theorems.v and C05SegTheorems.v, all closed under the global context), for ALL sample field values, "
                   "flag words, trex contents, extra-box sizes and op histories (induction over the op list and over the fragment list): "
-                  "C05_segment_roundtrip: for ANY list of fragment histories (each a multi-track fragment under any history of "
-                  "AddFullSampleToTrack, unknown ids refused, extra boxes in moof/trafs, emsg/prft/free/uuid/unknown boxes of any size "
-                  "before the moof, after the mdat and between the fragments), head = nothing or styp + any sidx boxes, with or without "
-                  "init segment, any start position, optimisation on or off, any trex: if MediaSegment.Encode succeeds, the stream is well "
-                  "framed, DecodeFile regroups it into one fragment per history and reading the track fragment by fragment in order returns "
-                  "exactly the concatenation of the added full samples (bytes, size, duration, flags, cto, decode time), given "
-                  "Size=len(Data), consistent decode times and the 2 GiB int32 guard per fragment. Components: C05_segment_decode "
-                  "(regrouping: moof start / mdat payload positions = stream positions), C05_segment_independent (independence of the "
-                  "fragments as a lemma: any per-fragment result that holds at every position lifts to the segment). Per fragment (as before): "
-                  "C05_roundtrip / _nil / _lazy / _single / _single_modes, C05_optimize_resolve, C05_optimize_preserves_resolve, "
-                  "C05_history_inv(_single), C05_history_mdat, C05_offsets(_partial), C05_lazy_equiv_partial. Byte level: "
-                  "C05_trun_codec, C05_tfhd_codec, C05_tfdt_codec (v0/v1 by value), C05_fragment_codec (the whole byte string "
-                  "moof ++ mdat incl. the 16-byte large-size mdat header parses back to the wire view), C05_roundtrip_bytes (C05_roundtrip "
-                  "end to end on the bytes of one fragment without extra boxes, for fields within their wire widths). Refuted with "
-                  "witnesses reproduced on the real code: C05_optimize_pinned_refuted (fixed), C05_optimized_trun_refuted (known C05-F7: "
-                  ">1024 uniform samples + optimisation are written as a trun DecodeTrun refuses), C05_mixed_modes_refuted (known C05-F8: "
-                  "metadata-only additions mixed with full samples/intervals in one fragment). "
-                  "NOT proved, explored only (correspondence + search): the segment theorem for single-track and metadata-only fragments "
-                  "(they follow from C05_segment_independent + the per-fragment theorems but are not instantiated), sidx boxes without a styp "
-                  "(the File then splits the stream into segments by position: modelled, compared, not in the theorem), byte level of "
-                  "extra children inside moof/traf and of the boxes around the fragments (sizes only), EncodeSW vs Encode and "
-                  "DecodeFile vs DecodeFileSR (one model for both; differences are searched).",
+                  "C05_segment_roundtrip_any: for ANY list of encoded fragments in ANY mix of the classes multi-track/AddFullSampleToTrack "
+                  "(trex or nil trex), multi-track/AddSampleToTrack with the data written by the caller, single-track under ALL SIX add "
+                  "operations (one data mode per fragment: full, metadata-only, sample intervals), with emsg/prft/free/uuid/unknown boxes of "
+                  "any size before the moof, after the mdat and between the fragments, head = nothing or styp + any sidx boxes, with or "
+                  "without init, any start position, optimisation on/off, any trex: the stream is well framed, DecodeFile yields one fragment "
+                  "per encoded fragment and reading fragment by fragment returns the concatenation of what each fragment's theorem says "
+                  "(the added samples: bytes, size, duration, flags, cto, decode time). C05_segment_roundtrip_any_sidx / "
+                  "C05_segment_decode_sidx: the same with head = sidx boxes WITHOUT styp (the File then starts segments by position) under "
+                  "sidx_guard = no segment start while a fragment opened by an emsg waits for its moof (C05_sidx_guard_refuted: without it "
+                  "DecodeFile leaves a moof-less fragment; witness replayed on the real code in corr). C05_segment_roundtrip (multi-track "
+                  "full-sample histories), C05_segment_roundtrip_emsg + C05_emsg_layout: ANY interleaving of the sample additions with "
+                  "Fragment.AddEmsg / AddChild keeps Children = pre ++ [moof; mdat] ++ post, AddEmsg cannot fail and puts every emsg in "
+                  "front of the moof, and such histories round-trip (C05_add_emsg_pinned_refuted: the text before fix 8f3ca14 panics / puts "
+                  "the emsg behind the mdat). Components: C05_segment_decode, C05_segment_independent. Per fragment: C05_roundtrip / _nil / "
+                  "_lazy / _single / _single_modes, C05_optimize_resolve, C05_optimize_preserves_resolve, C05_history_inv(_single), "
+                  "C05_history_mdat, C05_offsets(_partial), C05_lazy_equiv_partial. Byte level: C05_trun_codec, C05_tfhd_codec, C05_tfdt_codec, "
+                  "C05_fragment_codec (moof ++ mdat incl. the 16-byte mdat header parses back to the wire view), C05_roundtrip_bytes "
+                  "(C05_roundtrip end to end on the bytes of one fragment, fields within their wire widths, NO bound on the samples per "
+                  "trun: C05_optimized_trun_decodes proves DecodeTrun's 1024 guard accepts whatever OptimizeTfhdTrun writes for a CreateTrun "
+                  "trun, after fix 6c7a902; C05_optimized_trun_pinned_refuted for the old text). Refuted: C05_optimize_pinned_refuted (fixed), "
+                  "C05_mixed_modes_refuted (known C05-F8). "
+                  "NOT proved, explored only (correspondence + search): AddEmsg / AddChild on fragments that are not created ones (NewFragment, "
+                  "decoded fragments: corr kind L and probe:emsg), a plain Encode in the middle of a history (search + corr, the model skips "
+                  "it), byte level of extra children inside moof/traf and of the boxes around the fragments (sizes only), truns of decoded / "
+                  "hand-made fragments without a composition-offset field under optimisation (fix 6c7a902 keeps the cto field; a trun that "
+                  "never had one can still be optimised bare), EncodeSW vs Encode and DecodeFile vs DecodeFileSR (one model; differences are searched).",
     "level_note": "Trusted: Coq kernel, extraction (ExtrOcamlBasic), OCaml/Go glue, generators. The model is a hand transcription tied to "
                   "/repo by differential runs on every check (op outcome classes, write-order numbers, tfdt, mdat bookkeeping, flags and "
                   "defaults after optimisation, all data offsets, sizes, moof bytes, recovered FullSample lists; per segment: framing, "
@@ -63,6 +67,7 @@ def run(ctx):
     ctx.cov["trusted_base"] = common.TRUSTED_BASE_COMMON + [
         "model: coq/c05/C05Model.v is a hand transcription of mp4/fragment.go, trun.go, tfhd.go, tfdt.go, traf.go "
         "(OptimizeTfhdTrun), mdat.go, trex.go (io errors not modelled; box bodies other than tfhd/tfdt/trun/mdat are opaque sizes)",
+        "model: coq/c05/C05EmsgModel.v transcribes Fragment.AddEmsg (after fix 8f3ca14; the pinned text with the slice capacity as a parameter) and AddChild on the ordered children",
         "model: coq/c05/C05SegModel.v transcribes mediasegment.go Encode, file.go DecodeFile/AddChild/startSegmentIfNeeded (default options) "
         "at the level of boxes; coq/c05/C05SegCodecModel.v the box headers, container children loop, mfhd, tfdt, traf, moof, mdat header (strict framing)",
         "hooks: /repo/mp4/verif_c05.go (build tag verif) exposes nextTrunNr and writeOrderNr read-only",
@@ -83,6 +88,9 @@ def run(ctx):
     exe, model = build(ctx)
     pr = ctx.proofs("c05", "C05Theorems.v")
     pr_seg = ctx.proofs("c05", "C05SegTheorems.v")
+    ctx.notes["model_coverage"] = ("AddEmsg / AddChild / boxes put in front directly are ops of the H and G histories (the model computes the "
+                                   "children layout; observable lay=), corr kind L runs them on created, empty and decoded fragments; "
+                                   "O cases include truns of 1023..1100 mostly uniform samples (DecodeTrun's 1024 guard)")
     # ---- correspondence
     n = ctx.n(3000, 60000)
     exh_c, exh_s = ctx.n(2, 3), ctx.n(3, 4)
@@ -123,13 +131,16 @@ def run(ctx):
         elif f[0] == "EVALS":
             ctx.cov["evaluations"] += int(f[1])
             ctx.notes["search_evaluations"] = int(f[1])
+    new_fails = 0
     for f in fails:
-        ctx.failing_input(f[1], f[2], f[3], f[4], extra={"replay_cmd": "build/bin/c05 replay -w '<witness>'"})
+        if ctx.failing_input(f[1], f[2], f[3], f[4], extra={"replay_cmd": "build/bin/c05 replay -w '<witness>'"}):
+            new_fails += 1
     ctx.log("search: %d evaluations, %d failing inputs" % (ctx.notes.get("search_evaluations", 0), len(fails)))
     for k in common.load_known():
         if k.get("property") == "C05" and k.get("status") == "fixed":
             print("fixed: property=C05 %s %s/%s" % (k.get("commit"), k.get("site"), k.get("class")))
-    if mism and not fails:
+    # a model/implementation disagreement alarms unless a NEW failing input already does (known findings do not mask it)
+    if mism and not new_fails:
         by_id = {}
         for l in lines:
             p = l.split("\t")
@@ -154,11 +165,13 @@ def run(ctx):
                        "corr G: one case per random segment whose fragments all encode (1-6 fragments, emsg/prft/free/uuid/unknown boxes in and between them, styp, sidx truthful or arbitrary, "
                        "with/without init, Encode or EncodeSW, DecodeFile or DecodeFileSR): framing bits, segments, fragments per segment, moof start and mdat payload positions, per-trex read-back over all fragments; "
                        "corr B: as many malformed sequences of top-level boxes (mdat without moof, box between moof and mdat, two moofs, emsg only, styp/sidx in the middle): error/panic classes, segments, positions, GetFullSamples classes; "
+                       "corr L: as many AddEmsg / AddChild / Encode histories on CreateFragment, CreateMultiTrackFragment, NewFragment and decoded fragments (emsg behind the mdat, alone, several in a row; boxes put in front directly): outcome class of every call and the children (kind, size) afterwards vs add_emsg / add_child; "
+                       "H/G histories also contain AddEmsg (E), AddChild (C), a plain Encode (N) and boxes put in front of the moof directly (children layout compared as lay=); O every 150th case has 1023..1100 mostly uniform samples; G also the witness of C05_sidx_guard_refuted (4 decoders); "
                        "corr M: the moof bytes of every plain fragment through DecodeBoxSR vs the byte-level model (1/4 truncated, 1/4 one byte changed: there the stricter model may answer error); "
                        "search: every such history of length <= %d, then %d random segments (1-4 tracks, 1-6 fragments, 0-40 ops, extra boxes, sidx, both encoders, optimise on/off, "
                        "both decoders, adversarial trex): added list == recovered list per track, the data-offset oracle, moof/mdat positions of every decoded fragment, "
                        "Encode vs EncodeSW byte equality and DecodeFile vs DecodeFileSR agreement (every 4th); "
-                       "probes with metadata-only samples of huge payloads (offset oracle only), a re-encode probe, the >1024-uniform-samples probe and the mixed-mode probe"
+                       "probes with metadata-only samples of huge payloads (offset oracle only), a re-encode probe, the >1024-uniform-samples probe, the mixed-mode probe and probe:emsg (AddEmsg x 3 on a fragment with an emsg behind its mdat, an empty one, decoded ones: no panic, emsg in front of the moof, round trip)"
                        % (n, exh_c, exh_s, ns))
 
 
